@@ -184,6 +184,15 @@ def run(pid, tier, seed):
         coverage["rule"] += " The product types of expression lists, scopes, parameter lists and base lists are read element by " \
                             "element after each of up to 36 (quick) / 70 (thorough) additions (IprSeq, kinds typed_sequence:*)."
         violations += sq["violations"]
+        # ... and the scopes themselves (heterogeneous scopes, parameter lists, enumerations, base lists, handler regions): IprScopes
+        # reads elements and the product type after every declaration
+        import p_scopes
+        sc = p_scopes.run("C09", tier, seed)
+        scc = sc["coverage"]
+        for k in ("states", "transitions", "traces_validated_against_impl", "evaluations"):
+            coverage[k] += scc[k]
+        coverage["scope_types"] = {"jobs": scc["jobs"]}
+        violations += sc["violations"]
     return {"coverage": coverage, "violations": violations,
             "assumptions": ["the node table (tools/gen_nodes.py) is the oracle; it is written from the interface documentation",
                             "expr_factory::make_annotation and Lexicon::make_token are declared but not defined by the library and cannot be exercised"]}
